@@ -16,6 +16,9 @@ Definition h_prep_raises : ihandler := {| ih_prep := fun _ _ _ => None; ih_resto
 Definition h_restore_raises : ihandler := {| ih_prep := wrap_prep; ih_restore := fun _ _ _ => None |}.
 Definition oh_wrap : ohandler := {| oh_prep := fun a kw => Some (VDict [(U"a", VList a); (U"k", VDict kw)]) |}.
 Definition oh_raises : ohandler := {| oh_prep := fun _ _ => None |}.
+(* handlers whose prepared value is not a container: a digest of the call (an int) / nothing at all (None) *)
+Definition oh_count : ohandler := {| oh_prep := fun a kw => Some (VInt (Z.of_nat (length a) + 10 * Z.of_nat (length kw))) |}.
+Definition oh_null : ohandler := {| oh_prep := fun _ _ => Some VNone |}.
 Definition vm_echo (a : list pyval) (kw : list (str * pyval)) : pyval := VTuple a.
 
 (** ---- decidable comparisons (values up to Python ==) ---- *)
